@@ -3,7 +3,24 @@
    Model: prims/MemStream.v.  Ghost lists of the model: entered (items that entered the stream state, in arrival
    order), handed (items that left it towards a receiver), returned (items returned by receive calls), inflight
    (items in the slot of a receiver that has not resumed yet), lost (items in the slot of a receive that raised),
-   withdrawn (items of blocked sends that raised while still queued), acked (items whose send returned normally). *)
+   withdrawn (items of blocked sends that raised while still queued), acked (items whose send returned normally).
+
+   Outside the model - recorded observation `skip_prediction_averted` (hunt/C12/borderline_shield_toggle.py):
+   send_nowait pops and forgets a waiting receiver whose has_pending_cancellation() is true.  In the model that is
+   never a mere prediction: op ScopeCancel (cancel() of the scope entered around the blocked call) delivers
+   Task.cancel() at once, so for every queued receiver "has_pending" implies that the waiter future is ALREADY
+   cancelled (C12_skip_means_future_cancelled) and a popped receiver always ends with CancelledError
+   (C12_skipped_receiver_is_cancelled).  In the real code has_pending_cancellation() can also be true through
+   CancelScope._effectively_cancelled alone, before any Task.cancel(): a receiver blocked inside a SHIELDED scope inside
+   an already cancelled scope whose _deliver_cancellation retry callback is pending; a third party sets shield=False
+   (delivery deferred to the pending retry), calls send_nowait (receiver popped, item buffered) and sets shield=True
+   again, all inside one loop cycle: the retry skips the receiver, which is then neither cancelled nor ever served.
+   No op sequence of this model produces that state: it needs cancel-scope state (nested scopes, the shield flag, the
+   retry handle) which the P machine does not have - its only scope op is ScopeCancel, and `disciplined` plays no
+   role (it restricts native Cancel ops only).  The scenario is therefore executed on the real code by the harness
+   (memstream_common.observe_skip_prediction_averted) and recorded in evidence/C12.json under
+   coverage.observations.skip_prediction_averted; it is not counted as a violation (the property quantifies over
+   cancellation, not over a third party toggling another task's shield inside one cycle). *)
 From AV Require Import Base MemStream MemStreamProofs MemStreamThms.
 From Coq Require Import Permutation.
 
@@ -119,6 +136,9 @@ Theorem C12_cancelled_receive_removes_nothing : forall s t e,
 Proof. exact ms_cancelled_receive_removes_nothing. Qed.
 Print Assumptions C12_cancelled_receive_removes_nothing.
 
+(* definitional (late_native_cancel only matches the native Cancel op): kept as documentation of the premise, the content
+   is that the model's scope_cancel never touches a task whose waiter is done - a modelling fact about
+   _deliver_cancellation validated by the correspondence runs with Send/scoped, Recv/scoped ops, not a clause *)
 Theorem C12_scope_cancel_is_disciplined : forall s t, ~ late_native_cancel s (ScopeCancel t).
 Proof. exact ms_scope_cancel_is_disciplined. Qed.
 Print Assumptions C12_scope_cancel_is_disciplined.
@@ -144,3 +164,61 @@ Theorem C12_interrupted_send_cases : forall m s t e x, reach m s -> phase_of s t
   In (e, x) (senders s) \/ In x (handed s ++ buffer s).
 Proof. exact ms_interrupted_send_cases. Qed.
 Print Assumptions C12_interrupted_send_cases.
+
+(* ---------- additions after the independent audit (hunt/audit.md C12 4.1, 4.2) ---------- *)
+
+(* the skip rule of send_nowait is safe: a skipped receiver is (already) cancelled, never a silent hang *)
+Theorem C12_skip_means_future_cancelled : forall m s e t, reach m s ->
+  In (e, t) (receivers s) -> has_pending s t = true ->
+  fut s e = FCancelled /\ snd (step s (Resume t)) = RCancelled.
+Proof. exact ms_skip_means_future_cancelled. Qed.
+Print Assumptions C12_skip_means_future_cancelled.
+
+Theorem C12_skipped_receiver_is_cancelled : forall m s t e, reach m s ->
+  phase_of s t = RecvWait e -> ~ In (e, t) (receivers s) -> slot s e = None -> open_send s > 0 ->
+  (fut s e = FCancelled \/ mustc s t = true) /\ fut s e <> FPending /\
+  snd (step s (Resume t)) = RCancelled.
+Proof. exact ms_skipped_receiver_is_cancelled. Qed.
+Print Assumptions C12_skipped_receiver_is_cancelled.
+
+(* trace-level FIFO of the waiting queues, for every op sequence: an entry is served only when every entry that
+   started waiting earlier has been served or withdrawn (senders), resp. is gone or is a cancelled entry dropped by
+   the same send (receivers); and entries leave the queues in no other way *)
+Theorem C12_sender_fifo_trace : forall m s e y r, reach m s ->
+  senders s = (e, y) :: r ->
+  forall pre post, senq s = pre ++ e :: post ->
+  (forall e', In e' pre -> ~ In e' (map fst (senders s))) /\ subseq (map fst r) post.
+Proof. exact ms_sender_fifo_trace. Qed.
+Print Assumptions C12_sender_fifo_trace.
+
+Theorem C12_sender_entries_leave : forall s o,
+  let s' := fst (step s o) in
+  senders s' = senders s \/
+  (exists e x, senders s' = senders s ++ [(e, x)]) \/
+  (exists e y, senders s = (e, y) :: senders s' /\
+               ((exists t h, o = RecvNowait t h) \/ (exists t h, o = Resume t /\ phase_of s t = RecvCk h))) \/
+  (exists t e x, o = Resume t /\ phase_of s t = SendWait e x /\ senders s' = del_key e (senders s)).
+Proof. exact ms_sender_entries_leave. Qed.
+Print Assumptions C12_sender_entries_leave.
+
+Theorem C12_receiver_fifo_trace : forall m s e t rest, reach m s ->
+  pop_live s (receivers s) = (Some (e, t), rest) ->
+  forall pre post, renq s = pre ++ e :: post ->
+  subseq (map fst rest) post /\
+  forall e', In e' pre ->
+    ~ In e' (map fst rest) /\
+    (In e' (map fst (receivers s)) ->
+       exists t', In (e', t') (receivers s) /\ has_pending s t' = true /\ fut s e' = FCancelled).
+Proof. exact ms_receiver_fifo_trace. Qed.
+Print Assumptions C12_receiver_fifo_trace.
+
+Theorem C12_receiver_entries_leave : forall m s o, reach m s ->
+  let s' := fst (step s o) in
+  receivers s' = receivers s \/
+  (exists e t, receivers s' = receivers s ++ [(e, t)]) \/
+  (((exists t h x, o = SendNowait t h x) \/ (exists t h x, o = Resume t /\ phase_of s t = SendCk h x)) /\
+   receivers s' = snd (pop_live s (receivers s))) \/
+  (exists t e, o = Resume t /\ phase_of s t = RecvWait e /\ receivers s' = del_key e (receivers s)) \/
+  (exists h, o = Close h /\ receivers s' = [] /\ open_send s' = 0).
+Proof. exact ms_receiver_entries_leave. Qed.
+Print Assumptions C12_receiver_entries_leave.
